@@ -12,7 +12,7 @@ Local Open Scope string_scope.
 Local Open Scope list_scope.
 
 (* ------------------------------------------------------------------ accesses *)
-Inductive akind := KOpen | KRead | KReadlink | KListdir | KStat | KLstat | KSys.
+Inductive akind := KOpen | KRead | KReadlink | KListdir | KStat | KLstat | KSys | KAccess.
 (* whose path: the object's own /proc/<pid>/.., another process's, a global procfs file,
    or (listing-driven loops over all pids) whichever the current loop entry is *)
 Inductive who := Self | Other | Global | Any.
@@ -26,14 +26,23 @@ Inductive fid :=
 | FSysPrio | FSysIoprio | FSysAffinity | FSysRlimit   (* per-process system calls of the C extension *)
 | FParentStat                            (* /proc/<ppid>/stat *)
 | FStatE                                 (* /proc/<entry>/stat *)
-| FRoot | FNetTcp | FNetTcp6 | FNetUdp | FNetUdp6 | FNetUnix.   (* /proc, /proc/net/... *)
+| FRoot | FNetTcp | FNetTcp6 | FNetUdp | FNetUdp6 | FNetUnix    (* /proc, /proc/net/... *)
+(* accesses OUTSIDE procfs that Process methods perform (whose = Other: they can be refused, they do not vanish
+   with the process) *)
+| FExeDel | FCwdDel                      (* os.stat("<exe|cwd target> (deleted)") in readlink()'s clean-up *)
+| FTargetDelE | FTargetE                 (* os.stat of fd/<entry>'s target: with " (deleted)" (clean-up), stripped (isfile_strict) *)
+| FMapPathE                              (* os.stat("<mapped file> (deleted)") in memory_maps() *)
+| FGuessExe                              (* os.stat / os.access of cmdline[0] in Process.exe()'s guess *)
+| FDevDir | FDevE.                       (* get_terminal_map(): the /dev scan (not faulted), os.stat of each tty *)
 Record label := { l_kind : akind; l_who : who; l_file : fid }.
 (* what an access may answer while the process is alive, besides success and refusal:
    nothing else / also ENOENT, ESRCH (file may be gone) / also EINVAL (not a link) *)
 Inductive oclass := Strict | MayVanish | MayVanishOrInval.
 
 Inductive errno := ENOENT | ESRCH | EACCES | EPERM | EINVAL.
-Inductive lcls := LReg | LSock | LOtherLink.
+(* class of a link target: absolute regular file / the same with a " (deleted)" suffix / absolute, not a regular
+   file / absolute dangling "... (deleted)" / socket:[..] / anything not absolute *)
+Inductive lcls := LReg | LRegDel | LAbsOther | LDel | LSock | LOtherLink.
 Record data := { d_empty : bool; d_zombie : bool; d_names : list string; d_link : lcls }.
 Definition data0 := {| d_empty := false; d_zombie := false; d_names := []; d_link := LOtherLink |}.
 Inductive res := Ok (d : data) | Err (e : errno).
@@ -158,7 +167,10 @@ Fixpoint find_slot (l : list (nat * data)) (n : nat) : option data :=
   match l with [] => None | (m, d) :: r => if Nat.eqb n m then Some d else find_slot r n end.
 
 Definition lcls_eqb (a b : lcls) : bool :=
-  match a, b with LReg, LReg | LSock, LSock | LOtherLink, LOtherLink => true | _, _ => false end.
+  match a, b with
+  | LReg, LReg | LRegDel, LRegDel | LAbsOther, LAbsOther | LDel, LDel | LSock, LSock | LOtherLink, LOtherLink => true
+  | _, _ => false
+  end.
 Definition eval_test (w : world) (t : test) (cx : xc) (s : st) : bool :=
   match t with
   | TEmpty => d_empty (s_data s) | TZombie => d_zombie (s_data s)
@@ -234,8 +246,13 @@ Definition F_GONE := 3%nat.     (* Process._gone *)
 Definition F_REUSED := 4%nat.   (* Process._pid_reused *)
 Definition F_NOIDENT := 5%nat.  (* fresh Process(pid)._ident == (pid, None) *)
 Definition F_CTIME := 6%nat.    (* Process._create_time is cached *)
+Definition F_NOCMD := 12%nat.   (* cmdline() returned [] *)
+Definition F_DEL := 13%nat.     (* the link just read ends in " (deleted)" *)
+Definition F_ABS := 14%nat.     (* ... is an absolute path *)
+Definition F_SOCK_THIS := 16%nat. (* ... is socket:[inode] *)
+Definition F_REG := 15%nat.     (* ... names a regular file (after the clean-up) *)
 (* world facts *)
-Definition W_GUESS := 0%nat.    (* cmdline[0] is an absolute, existing, executable file *)
+Definition W_GUESS := 0%nat.    (* cmdline[0] is an absolute path *)
 Definition W_LONGNAME := 1%nat. (* len(name) >= 15 *)
 Definition W_ISLOWEST := 2%nat. (* pid == lowest pid *)
 
@@ -262,20 +279,32 @@ Definition parse_stat := Call (wrapped (Memo 0 (bcat Self FStat))).
 Definition read_status := Call (wrapped (Memo 1 (bcat Self FStatus))).
 Definition read_smaps := Call (wrapped (Memo 2 (bcat Self FSmaps))).
 
+(* path_exists_strict / isfile_strict: os.stat, PermissionError is re-raised, any other OSError means "no" *)
+Definition stat_strict (f : fid) (yes : prog) :=
+  Try (acc KStat Other f) (handlers [(HPerm, Reraise); (HOSError, Skip)]) yes.
+Definition link_in (cs : list lcls) (n : nat) : prog :=
+  fold_right (fun c r => If (TLink c) (SetFlag n true) r) (SetFlag n false) cs.
+(* _pslinux.readlink(path): os.readlink, then for a target ending in " (deleted)": path_exists_strict(target) *)
+Definition rl (f del : fid) :=
+  seqs [ acc KReadlink Self f;
+         link_in [LDel; LRegDel] F_DEL; link_in [LReg; LRegDel; LAbsOther; LDel] F_ABS; link_in [LReg; LRegDel] F_REG;
+         link_in [LSock] F_SOCK_THIS;
+         If (TFlag F_DEL) (stat_strict del Skip) Skip ].
+
 (* _readlink(path, fallback=''): on ENOENT/ESRCH probe /proc/<pid> with os.lstat (a refusal of the probe
    propagates to wrap_exceptions); still there: zombie check, fallback; else re-raise *)
-Definition readlink_fb (f : fid) :=
+Definition readlink_fb (f del : fid) :=
   Call (Seq (SetFlag F_FALLBACK false)
-    (Try (acc KReadlink Self f)
+    (Try (rl f del)
        (handlers [(HFnfEsrch,
           Seq (Try (acc KLstat Self FDir) (handlers [(HFnfEsrch, Skip)])
                    (Seq (raise_if_zombie Self FStat) (Seq (SetFlag F_FALLBACK true) Ret)))
               Reraise)])
        Ret)).
 (* the code before commit 4ee76b0: os.path.lexists swallowed every OSError of the probe *)
-Definition legacy_readlink_fb (f : fid) :=
+Definition legacy_readlink_fb (f del : fid) :=
   Call (Seq (SetFlag F_FALLBACK false)
-    (Try (acc KReadlink Self f)
+    (Try (rl f del)
        (handlers [(HFnfEsrch,
           Seq (Try (acc KLstat Self FDir) (handlers [(HOSError, Skip)])
                    (Seq (raise_if_zombie Self FStat) (Seq (SetFlag F_FALLBACK true) Ret)))
@@ -285,13 +314,14 @@ Definition legacy_readlink_fb (f : fid) :=
 (* ---- _pslinux.Process methods *)
 Definition i_stat_based := Call (wrapped parse_stat).       (* name status ppid cpu_times cpu_num terminal create_time *)
 Definition i_status_based := Call (wrapped read_status).    (* uids gids num_threads num_ctx_switches *)
-Definition i_exe := Call (wrapped (readlink_fb FExe)).
-Definition i_cwd := Call (wrapped (readlink_fb FCwd)).
-Definition legacy_i_exe := Call (wrapped (legacy_readlink_fb FExe)).
-Definition legacy_i_cwd := Call (wrapped (legacy_readlink_fb FCwd)).
+Definition i_exe := Call (wrapped (readlink_fb FExe FExeDel)).
+Definition i_cwd := Call (wrapped (readlink_fb FCwd FCwdDel)).
+Definition legacy_i_exe := Call (wrapped (legacy_readlink_fb FExe FExeDel)).
+Definition legacy_i_cwd := Call (wrapped (legacy_readlink_fb FCwd FCwdDel)).
 Definition i_cmdline :=
   Call (wrapped (seqs [acc KOpen Self FCmdline; acc KRead Self FCmdline;
-                       If TEmpty (Seq (raise_if_zombie Self FStat) Ret) Ret])).
+                       If TEmpty (seqs [SetFlag F_NOCMD true; raise_if_zombie Self FStat; Ret])
+                                 (Seq (SetFlag F_NOCMD false) Ret)])).
 Definition i_file (f : fid) := Call (wrapped (bcat Self f)).   (* environ io statm *)
 Definition i_memory_info := i_file FStatm.
 Definition i_parse_smaps := Call (wrapped read_smaps).
@@ -299,7 +329,10 @@ Definition i_memory_full_info :=
   Call (wrapped (seqs [ Try (bcat Self FRollup) (handlers [(HFnfEsrch, i_parse_smaps)]) Skip;
                         i_memory_info ])).
 Definition i_memory_maps :=
-  Call (wrapped (seqs [read_smaps; If TEmpty (Seq (raise_if_zombie Self FStat) Ret) Ret])).
+  Call (wrapped (seqs [read_smaps;
+                       If TEmpty (Seq (raise_if_zombie Self FStat) Ret)
+                          (* for every mapping whose path ends in " (deleted)": path_exists_strict(path) *)
+                          (Seq (ForNames (stat_strict FMapPathE Skip)) Ret)])).
 Definition raise_if_not_alive := acc KStat Self FDir.
 Definition i_threads :=
   Call (wrapped (seqs
@@ -309,10 +342,14 @@ Definition i_threads :=
 Definition i_open_files :=
   Call (wrapped (seqs
     [ acc KListdir Self FFdDir; SetFlag F_HIT false;
-      ForNames (Try (acc KReadlink Self FFdE)
+      ForNames (Try (rl FFdE FTargetDelE)
                     (handlers [(HFnfEsrch, SetFlag F_HIT true); (HEinval, Skip)])     (* other OSErrors: raise *)
-                    (If (TLink LReg)
-                        (Try (bcat Self FFdinfoE) (handlers [(HFnfEsrch, SetFlag F_HIT true)]) Skip)
+                    (* if path.startswith('/') and isfile_strict(path): *)
+                    (If (TFlag F_ABS)
+                        (stat_strict FTargetE
+                           (If (TFlag F_REG)
+                               (Try (bcat Self FFdinfoE) (handlers [(HFnfEsrch, SetFlag F_HIT true)]) Skip)
+                               Skip))
                         Skip));
       If (TFlag F_HIT) raise_if_not_alive Skip; Ret ])).
 Definition i_num_fds := Call (wrapped (acc KListdir Self FFdDir)).
@@ -329,11 +366,15 @@ Definition net_files (kind : nat) : prog :=
 Definition i_net_connections (kind : nat) :=
   Call (wrapped (seqs
     [ Call (seqs [ acc KListdir Self FFdDir; SetFlag F_SOCK false;
-                   ForNames (Try (acc KReadlink Self FFdE)
+                   ForNames (Try (rl FFdE FTargetDelE)
                                  (handlers [(HFnfEsrch, Skip); (HEinval, Skip)])
-                                 (If (TLink LSock) (SetFlag F_SOCK true) Skip));
+                                 (If (TFlag F_SOCK_THIS) (SetFlag F_SOCK true) Skip));
                    If (TFlag F_SOCK) (net_files kind) Ret ]);
       raise_if_not_alive; Ret ])).
+(* terminal(): tty_nr from stat, then _psposix.get_terminal_map(): scan /dev, os.stat every tty (ENOENT tolerated) *)
+Definition i_terminal :=
+  Call (wrapped (seqs [ parse_stat; acc KListdir Global FDevDir;
+                        ForNames (Try (acc KStat Other FDevE) (handlers [(HFnf, Skip)]) Skip); Ret ])).
 Definition i_sys (f : fid) := Call (wrapped (acc KSys Self f)).    (* nice_get ionice_get cpu_affinity_get *)
 Definition i_rlimit := Call (wrapped (Try (acc KSys Self FSysRlimit) (handlers [(HOSError, Reraise)]) Skip)).
 
@@ -341,9 +382,17 @@ Definition i_rlimit := Call (wrapped (Try (acc KSys Self FSysRlimit) (handlers [
 Definition f_name :=
   seqs [ i_stat_based;
          If (TParam W_LONGNAME) (Try i_cmdline (handlers [(HADZ, Skip)]) Skip) Skip; Ret ].
-Definition guess_it (on_fail : prog) := seqs [ i_cmdline; If (TParam W_GUESS) Ret on_fail ].
+(* guess_it: cmdline(); if cmdline and isabs(cmdline[0]) and os.path.isfile(..) and os.access(.., X_OK): return it.
+   os.path.isfile swallows every OSError, os.access answers False when refused *)
+Definition guess_it (on_fail : prog) :=
+  seqs [ i_cmdline;
+         If (TFlag F_NOCMD) on_fail
+           (If (TParam W_GUESS)
+               (Try (acc KStat Other FGuessExe) (handlers [(HOSError, on_fail)])
+                    (Try (acc KAccess Other FGuessExe) (handlers [(HOSError, on_fail)]) Ret))
+               on_fail) ].
 Definition f_exe_with (ie : prog) :=
-  seqs [ Try ie (handlers [(HAD, guess_it Reraise)])
+  seqs [ Try ie (handlers [(HAD, guess_it (Raise (XAD Self)))])
              (If (TFlag F_FALLBACK) (Try (Call (guess_it Ret)) (handlers [(HAD, Skip)]) Skip) Skip);
          Ret ].
 Definition f_exe := f_exe_with i_exe.
